@@ -95,6 +95,8 @@ func checkC06(c *Ctx, r *Report) {
 
 	checkOperationTable(c, r)
 	checkBuildLiterals(c, r)
+	// every transmission, including retransmissions, is serialised from freshly built layers
+	checkFreshLayers(c, r, "fresh-layers")
 
 	// payload order in the Open Session Request
 	r.Rule("open-session-payload-order", "the Open Session Request appends the authentication, integrity and confidentiality payloads in that order after the 8-byte header", 1)
